@@ -412,7 +412,8 @@ func c04Gen(t *rapid.T) c04Case {
 			ev.Class = rapid.SampledFrom(c04TransientClasses).Draw(t, "class")
 			ev.Count = rapid.IntRange(1, 4).Draw(t, "count")
 		case "abort", "stop", "dialdown":
-			ev.DownMS = rapid.SampledFrom([]int{10, 100, 1000, 20000}).Draw(t, "down")
+			// (also outages longer than the 30 s region lookup time-out)
+			ev.DownMS = rapid.SampledFrom([]int{10, 100, 1000, 20000, 45000, 120000}).Draw(t, "down")
 		}
 		c.Events = append(c.Events, ev)
 	}
